@@ -213,6 +213,7 @@ fn legality_of_write(sh: &Shadow, task: u32, res: u32, i: usize, out: &mut Vec<F
 
 pub fn check_dump(rec: &SessionRec, sh_after: &Shadow) -> Vec<Finding> {
   let mut out = Vec::new();
+  if rec.dump.absent { return out; }
   let at = rec.events.len().saturating_sub(1);
   match shadow::compare(sh_after, &rec.dump) {
     DumpDiff::Same => {}
@@ -245,7 +246,7 @@ pub fn check_dump(rec: &SessionRec, sh_after: &Shadow) -> Vec<Finding> {
 /// Computed whether or not the session aborted (the second oracle uses it to recognise finding K4).
 pub fn unrelated_reader_writer_pairs(rec: &SessionRec, sh_after: &Shadow) -> Vec<(u32, u32, u32, bool)> {
   let mut out = Vec::new();
-  if !rec.dump.problems.is_empty() { return out; }
+  if !rec.dump.problems.is_empty() || rec.dump.absent { return out; }
   for (r, dr) in &rec.dump.res {
     let writers: Vec<u32> = dr.incoming.iter().filter(|x| x.1 == DKind::Write).map(|x| x.0).collect();
     let Some(w) = writers.first() else { continue; };
